@@ -57,6 +57,8 @@ type ExpKey struct {
 	ExpireAt uint64
 	Val      *Val
 	Kind     string // description kind (str, lzl, …) for coverage counters
+	// ObjDesc: the value's description tokens (what follows the key token in the file description)
+	ObjDesc string
 }
 
 type Dataset struct {
@@ -727,6 +729,9 @@ type FileOpts struct {
 	// Tagged: most keys carry a {hash tag} and every third value is a stream with
 	// groups (the ReplaceHashTag lane: key arguments in other than the first position)
 	Tagged bool
+	// Streams: every second value is a stream (the lane of the svc / svv ops: stream
+	// expansions and replayed stream values against the Lean specification)
+	Streams bool
 	// Many: "slpmany" / "hlpmany": the first key is a listpack set / hash of >= 65535 elements
 	Many string
 	// Reserved: keys under the reserved prefixes are generated too, preferably as the
@@ -852,7 +857,7 @@ func (g *Gen) File(o FileOpts) *Dataset {
 		var val *Val
 		if o.Many != "" && i == 0 {
 			ot, val, kind = g.ObjKind(o.Many)
-		} else if o.Tagged && g.R.Chance(1, 3) {
+		} else if (o.Tagged && g.R.Chance(1, 3)) || (o.Streams && g.R.Chance(1, 2)) {
 			ot, val, kind = g.ObjKind("stream")
 		} else if o.Modules && g.R.Chance(1, 25) {
 			ot, val, kind = g.ObjKind("mod2")
@@ -860,7 +865,7 @@ func (g *Gen) File(o FileOpts) *Dataset {
 			ot, val, kind = g.Obj()
 		}
 		toks = append(toks, "k", exp, idle, freq, kt, ot)
-		ds.Keys = append(ds.Keys, ExpKey{DB: db, Key: k, Idle: idleN, Freq: freqN, ExpireAt: expAt, Val: val, Kind: kind})
+		ds.Keys = append(ds.Keys, ExpKey{DB: db, Key: k, Idle: idleN, Freq: freqN, ExpireAt: expAt, Val: val, Kind: kind, ObjDesc: ot})
 	}
 	ds.Footer = "good"
 	if g.R.Chance(1, 6) {
